@@ -6,6 +6,7 @@ import Driver.StateDrv
 import Driver.NamesDrv
 import Driver.ConcDrv
 import Driver.ResumeDrv
+import Driver.DurableDrv
 open Driver
 
 def runDomain (dom : String) (lines : Array String) : Array String :=
@@ -18,6 +19,8 @@ def runDomain (dom : String) (lines : Array String) : Array String :=
   | "names" => NamesDrv.runCase lines
   | "conc" => ConcDrv.runCase lines
   | "resume" => ResumeDrv.runCase lines
+  | "durable" => DurableDrv.runCase lines
+  | "durablecheck" => DurableDrv.runJudge lines
   | _ => #["unknown-domain " ++ dom]
 
 def main (args : List String) : IO UInt32 := do
